@@ -122,6 +122,26 @@ fn c02_grid_div_dual3_64() {
     assert!(r.v3 == a.v3, "Dual3 (a/b)*b: v3");
 }
 
+/// Dual3 quotient, one part per harness (the all-parts harness above needs > 25 min):
+/// part v_k of (a/b)*b only depends on parts 0..=k of a and b, so CBMC's slicer removes the rest.
+macro_rules! div_dual3_part {
+    ($name:ident, $part:ident, $msg:literal) => {
+        #[kani::proof]
+        fn $name() {
+            let ((_, x0), (_, x1), (_, x2), (_, x3)) = (g(), g(), g(), g());
+            let (y0, (_, y1), (_, y2), (_, y3)) = (gdiv(), g(), g(), g());
+            let a = Dual3_64::new(x0, x1, x2, x3);
+            let b = Dual3_64::new(y0, y1, y2, y3);
+            let r = (a / b) * b;
+            assert!(r.$part == a.$part, $msg);
+        }
+    };
+}
+div_dual3_part!(c02_grid_div_dual3_64_re, re, "Dual3 (a/b)*b: re");
+div_dual3_part!(c02_grid_div_dual3_64_v1, v1, "Dual3 (a/b)*b: v1");
+div_dual3_part!(c02_grid_div_dual3_64_v2, v2, "Dual3 (a/b)*b: v2");
+div_dual3_part!(c02_grid_div_dual3_64_v3, v3, "Dual3 (a/b)*b: v3");
+
 // ------------------------------------------------------------------ HyperHyperDual64
 #[kani::proof]
 fn c02_grid_mul_hyperhyperdual64() {
